@@ -21,7 +21,7 @@ typedef struct {
     uint32_t *arrivals;
     uint32_t *leaves;
     ABT_barrier tb; /* barrier with one waiter used by tasklet callers */
-    int final_reinit, reinit_actor, reinit_done, extra_arrivals;
+    int final_reinit, reinit_actor, reinit_done, extra_arrivals, reinit_claim;
 } bctx_t;
 
 static int c_reinit_overlap;
@@ -98,7 +98,10 @@ static void barrier_body(actor_t *a)
         /* one waiter reinitialises the barrier the moment its last wait has
          * returned (the others may still be on their way out of that round);
          * then everybody goes through one more round */
-        if (a->idx == c->reinit_actor) {
+        int zero = 0;
+        /* whoever comes out of the last round first (normally the last arriver,
+         * which never slept) reinitialises at once */
+        if (__atomic_compare_exchange_n(&c->reinit_claim, &zero, 1, 0, __ATOMIC_SEQ_CST, __ATOMIC_SEQ_CST)) {
             VRT_ABT(ABT_barrier_reinit(c->b, (uint32_t)c->n));
             __atomic_store_n(&c->reinit_done, 1, __ATOMIC_SEQ_CST);
         } else {
@@ -132,7 +135,7 @@ static void run_phase(world_t *w, bctx_t *c, vrt_rng *r, int n, int next,
     memset(c->leaves, 0, sizeof(uint32_t) * (size_t)rounds);
     actors_kinds(r, kinds, n - next, next, ntask);
     c->final_reinit = !c->use_xb && vrt_range(r, 2);
-    c->reinit_done = c->extra_arrivals = 0;
+    c->reinit_done = c->extra_arrivals = c->reinit_claim = 0;
     c->reinit_actor = 0;
     for (int i = 0; i < n + ntask; i++)
         if (kinds[i] != ACT_TASK && (kinds[i] == ACT_ULT || vrt_range(r, 2))) {
@@ -141,8 +144,15 @@ static void run_phase(world_t *w, bctx_t *c, vrt_rng *r, int n, int next,
         }
     if (kinds[c->reinit_actor] == ACT_TASK)
         c->final_reinit = 0;
-    if (c->final_reinit)
+    if (c->final_reinit) {
         vrt_count(c_reinit_overlap, 1);
+        /* often right after the first round since the barrier was created or
+         * reinitialised (wait-list state still at its initial values) */
+        if (vrt_range(r, 2)) {
+            rounds = 1;
+            c->rounds = 1;
+        }
+    }
     task_stream_t ts;
     vrt_actor_reset_all();
     actors_spawn(w, actors, n + ntask, kinds, barrier_body, c, &ts, seed);
